@@ -299,6 +299,8 @@ class Executor:
             return self.ok(Opaque(f"{obj.what}.{attr}"), st)
         if isinstance(obj, (PyList, PyDict, PyTuple)):
             return self.ok(Builtin(f"{type(obj).__name__}.{attr}", obj), st)
+        if isinstance(obj, Builtin) and obj.self_val is None:
+            return self.ok(Builtin(f"{obj.name}.{attr}"), st)
         if isinstance(obj, Closure):
             raise OutsideSubset(f"attribute {attr} of closure", node)
         if isinstance(obj, SV):
